@@ -31,6 +31,12 @@ fn steps_fwd(op: &Op, ctx: &dyn Context, operands: &mut dyn CoordinateSet) -> us
             "stack" => stack_fwd(&mut stack, operands, &step.params),
             _ => step.apply(ctx, operands, Fwd),
         };
+        // A stack underflow invalidates all operands: Make sure later steps
+        // cannot mask it by popping stale material over the NaNs
+        if m == 0 && !operands.is_empty() && is_stack_step(step) {
+            stack.clear();
+            operands.stomp();
+        }
         #[cfg(geodesy_verif)]
         verif_step(step, "F", false, m, stack.len());
         n = n.min(m);
@@ -41,6 +47,10 @@ fn steps_fwd(op: &Op, ctx: &dyn Context, operands: &mut dyn CoordinateSet) -> us
         n = operands.len();
     }
     n
+}
+
+fn is_stack_step(step: &Op) -> bool {
+    step.params.name == "stack"
 }
 
 // ----- I N V E R S E -----------------------------------------------------------------
@@ -71,6 +81,10 @@ fn steps_inv(op: &Op, ctx: &dyn Context, operands: &mut dyn CoordinateSet) -> us
             "stack" => stack_inv(&mut stack, operands, &step.params),
             _ => step.apply(ctx, operands, Inv),
         };
+        if m == 0 && !operands.is_empty() && is_stack_step(step) {
+            stack.clear();
+            operands.stomp();
+        }
         #[cfg(geodesy_verif)]
         verif_step(step, "I", false, m, stack.len());
         n = n.min(m);
